@@ -43,6 +43,9 @@ def universe(full):
         u.append(([4, n], tuple([1] * n), "tuple %d" % n))
     u += [([0], None, "None"), ([1, 2], "ab", "str"), ([1, 0], "", "empty str"), ([2], 3, "int"), ([2], 2.5, "float"),
           ([7], object(), "object"), ([7], {"a": 1}, "dict")]
+    nan = float("nan")
+    u += [([3, 2], [1.25, nan], "list 2 holding a NaN"), ([4, 2], (nan, nan), "tuple 2 of NaNs"), ([3, 3], [nan, 7.5, nan], "list 3 with one number"),
+          ([5, [4]], np.array([nan, 7.5, nan, nan], dtype="<f4"), "array(4,) <f4 with one number"), ([5, [2]], np.array([nan, nan], dtype="<f8"), "array(2,) <f8 of NaNs")]
     from basictdf.tdfTypes import CameraViewPort
     u.append(([6], CameraViewPort(np.array([0, 0]), np.array([4, 4])), "CameraViewPort"))
     # "every other kind of object": sequences and containers that are neither list, tuple nor array, lengths 0..4
